@@ -825,7 +825,7 @@ def describe(e):
             "context": e["cx"]}
 
 
-FX_PYINT = os.environ.get("C07_FX_PYINT", "0") == "1"     # flip after proposed_fixes/C07-pyint_pow_result_typed_int.diff
+FX_PYINT = os.environ.get("C07_FX_PYINT", "1") == "1"     # flip after proposed_fixes/C07-pyint_pow_result_typed_int.diff
 
 
 def run_coerced(ctx):
